@@ -928,6 +928,9 @@ with SqlImpl.impl_store.impl_manager as impl:
 
     @impl(ops.coalesce)
     def _coalesce(*x):
+        if len(x) == 1:
+            # COALESCE with a single argument is an error in most databases
+            return x[0]
         return sqa.func.coalesce(*x)
 
     @impl(ops.str_join)
